@@ -358,6 +358,83 @@ def run_attr_scenario(provs, kinds, inits, pol, attach_at, res=None):
     return None, steps
 
 
+# -- expression guards and a late provider of all their names ------------------------------------
+
+LATE_EXPRS = ("not ok", "!ok", "ok and ready", "ok or ready", "not ok and ready", "ok == ready")
+
+
+def late_expr_cases():
+    out = []
+    for expr in LATE_EXPRS:
+        for ctor in (("sm",), ("sm", "L1")):
+            for pol in ("cond", "unless"):
+                for twice in (False, True):
+                    out.append((expr, ctor, pol, twice))
+    return out
+
+
+def run_late_expr(expr, ctor, pol, twice):
+    """The names of a guard expression are provided by the constructor providers (a name must
+    hold on all of them: per-name conjunction inside the expression) and by a listener attached
+    later that provides all of them: the late listener has to satisfy the expression as well.
+    Every valuation of every provider is checked against that formula."""
+    from statemachine import State, StateMachine
+    from statemachine.factory import StateMachineMetaclass
+    import re
+    names = [n for n in ("ok", "ready") if re.search(rf"\b{n}\b", expr)]
+    holder = {}
+
+    def meth(p, n):
+        def f(self):
+            return holder[(p, n)]
+        f.__name__ = n
+        return f
+
+    a, b = State(initial=True), State()
+    ns = {"a": a, "b": b, "go": a.to(b, **{pol: expr}), "back": b.to(a)}
+    for n in names:
+        ns[n] = meth("sm", n)
+    cls = StateMachineMetaclass("ML", (StateMachine,), ns)
+    L1 = type("L1", (), {n: meth("L1", n) for n in names})
+    L3 = type("L3", (), {n: meth("L3", n) for n in names})
+    provs = list(ctor) + ["L3"]
+    for key in [(p, n) for p in provs for n in names]:
+        holder[key] = True
+    try:
+        sm = cls(listeners=[L1()] if "L1" in ctor else None)
+        l3 = L3()
+        sm.add_listener(l3)
+        if twice:
+            sm.add_listener(l3)
+    except Exception as e:   # noqa: BLE001
+        return f"construction/attachment raised {type(e).__name__}: {e}", 0
+    py = expr.replace("!", " not ")
+    want = pol == "cond"
+    steps = 0
+    keys = [(p, n) for p in provs for n in names]
+    for bits in itertools.product((True, False), repeat=len(keys)):
+        holder.update(zip(keys, bits))
+        sm.current_state_value = "a"
+        try:
+            sm.send("go")
+            fired = sm.current_state_value == "b"
+        except sm.TransitionNotAllowed:
+            fired = False
+        except Exception as e:   # noqa: BLE001
+            return f"send raised {type(e).__name__}: {e}", steps
+        steps += 1
+        fold = eval(py, {"__builtins__": {}},   # noqa: S307 - fixed expressions
+                    {n: all(holder[(p, n)] for p in ctor) for n in names})
+        late = eval(py, {"__builtins__": {}}, {n: holder[("L3", n)] for n in names})  # noqa: S307
+        exp = (bool(fold) == want) and (bool(late) == want)
+        if fired != exp:
+            return (f"{pol}={expr!r}, constructor providers {ctor}, late listener L3"
+                    f"{' (attached twice)' if twice else ''}, values {dict(holder)}: expected "
+                    f"fires={exp} (constructor providers: {bool(fold)}, late listener: "
+                    f"{bool(late)}), observed {fired}"), steps
+    return None, steps
+
+
 # -- a listener attached from inside a callback -----------------------------------------------------
 
 IN_GROUPS = ("before_transition", "on_exit_state", "on_transition", "on_enter_state",
@@ -591,6 +668,22 @@ def run_shared(seq, asyn, container="list"):
 
 
 def worker(block):
+    if block[1] == "late-expr":
+        res = BlockResult()
+        for case in late_expr_cases():
+            try:
+                with deadline(30):
+                    msg, steps = run_late_expr(*case)
+            except Hang:
+                msg, steps = "hung", 0
+            res.stats["states"] += 1
+            res.stats["evaluations"] += 1
+            res.stats["transitions"] += steps
+            res.hist["late-provider-of-expression"] += 1
+            if msg:
+                res.violation({"category": "late-provider-of-expression", "expr": case[0]},
+                              {"late_expr": [case[0], list(case[1]), case[2], case[3]]}, msg)
+        return res
     if block[1] == "incb":
         res = BlockResult()
         for case in in_callback_cases():
@@ -746,6 +839,7 @@ def run(tier, seed):
     na = len(attr_scenarios())
     blocks += [(tier, "attr", i, min(i + 400, na)) for i in range(0, na, 400)]
     blocks.append((tier, "incb", 0, 0))
+    blocks.append((tier, "late-expr", 0, 0))
     nsh = len(shared_sequences(4 if tier == "quick" else 5))
     blocks += [(tier, "shared", i, min(i + 200, nsh)) for i in range(0, nsh, 200)]
     total, capped = run_blocks(worker, blocks, seed=seed)
@@ -773,6 +867,9 @@ def run(tier, seed):
 
 
 def replay(sc):
+    if "late_expr" in sc:
+        e = sc["late_expr"]
+        return run_late_expr(e[0], tuple(e[1]), e[2], e[3])[0]
     if "incb" in sc:
         return run_in_callback(*sc["incb"])
     if "shared" in sc:
